@@ -1,7 +1,23 @@
 from vf import Q
 MODELS = ["models/alloc.c", "models/verif.c", "models/libc_stub.c", "models/thread_emul.c"]
-META = {"assumptions": [], "outside": []}
-MANIFEST = {}
+META = {
+ "assumptions": [
+  "thread part: allocator = models/alloc.c ledger installed through p_mem_set_vtable with the failing request index (vm_fail_at / vm_fail_from)",
+  "thread part: pthread_* = models/thread_emul.c (sequential emulation; mutex/cond/rwlock init/destroy/lock as contract models with ledgers; "
+  "a created thread runs when it is joined - no preemption in these scripts)",
+  "thread part: lock scripts - failing request index symbolic (0..KMAX, once / from there on); thread script - failing index concrete per query "
+  "(one entry point per index, same binary) because a symbolic failure point makes the handle pointer symbolic and defeats CBMC's function-pointer resolution; data symbolic",
+  "thread part: p_spinlock_lock (c11) replaced by its acquisition contract; printf empty"],
+ "outside": ["thread part: interleavings during failing calls (C05 covers interleavings without failures)",
+             "thread part: one representative script per module, not all call sequences",
+             "thread part: priorities / stack sizes (p_uthread_create_full with non-default arguments)"],
+}
+MANIFEST = {
+ "level_text": "Bounded symbolic execution of the real constructors/destructors of pmutex-posix, pcondvariable-posix, prwlock-general, prwlock-posix, pspinlock-sim and of a puthread script (init, TLS, create, join, current, shutdown) with the allocation failing at every request index, once or from there on; CBMC's pointer checks decide 'no invalid access', the allocator/pthread ledgers decide 'nothing left'.",
+ "level_note": "Trusted: CBMC 6.11, allocator ledger, pthread emulation. Scripts are representative; thread-script failure index enumerated by the runner (concrete), everything else decided by the solver.",
+ "technique": "CBMC on real units, failing allocator via public vtable, ledger comparison",
+ "design_ref": "DESIGN.md §3 C18 (thread/lock modules)",
+}
 LOCKS = {"mutex": (["src/pmutex-posix.c"], ["SCRIPT_MUTEX"], 2),
          "cond": (["src/pcondvariable-posix.c"], ["SCRIPT_COND"], 2),
          "rwlock_general": (["src/prwlock-general.c", "src/pmutex-posix.c", "src/pcondvariable-posix.c"], ["SCRIPT_RWLOCK", "RWLOCK_GENERAL"], 5),
